@@ -44,8 +44,10 @@ def run(prop, tier, seed):
         for (name, module, cfg) in m.exports(prop, tier):
             eps = r.export(module, cfg)
             r.batch("%s-%s" % (m.FAMILY, name), m.TRACE_SPEC, eps, nontrivial=m.nontrivial)
-        for name, (eps, profile) in m.episodes(prop, tier, seed).items():
-            r.batch("%s-%s" % (m.FAMILY, name), m.TRACE_SPEC, eps, profile=profile, nontrivial=m.nontrivial)
+        for name, spec in m.episodes(prop, tier, seed).items():
+            eps, profile = spec[0], spec[1]
+            jobs = spec[2] if len(spec) > 2 else 1      # executor processes for slow episodes
+            r.batch("%s-%s" % (m.FAMILY, name), m.TRACE_SPEC, eps, profile=profile, nontrivial=m.nontrivial, jobs=jobs)
         rules.append(m.RULE)
         assume += m.ASSUME
     return r.finish(assume, " | ".join(rules))
